@@ -156,6 +156,241 @@ def gen_cases(ctx, ntypes):
     return cases
 
 
+# ---- histories of attach / detach / dup / free on one communicator (0) and its duplicate (1) -----------------------------------------
+# an operation is (kind, c, ppn): kind 0 attach (ppn 0: MPI_Comm_split_type on the simulator's nodes), 1 detach, 2 dup, 3 free of the dup
+def op_text(o):
+    k, c, pa = o
+    return ("a%d.%d" % (c, pa)) if k == 0 else ("d%d" % c if k == 1 else ("dup" if k == 2 else "free"))
+
+
+def gen_histories(ctx):
+    rng = ctx.rng
+    out = []
+
+    def add(P, ops, ppn_sim=1):
+        d = rng.choice([3, 3, 5, 1, 6])
+        out.append((P, rng.randrange(1 << 30), rng.choice(ADVS), ppn_sim, 0, d, 1, rng.randrange(1 << 16), tuple(ops)))
+    A = lambda c, pa: (0, c, pa)
+    D = lambda c: (1, c, 0)
+    DUP, FREE = (2, 0, 0), (3, 1, 0)
+    for P in ([2, 3, 4, 6, 8, 9, 12] if ctx.quick else [2, 3, 4, 5, 6, 8, 9, 10, 12, 15, 16, 18]):
+        divs = [d for d in range(1, P + 1) if P % d == 0]
+        pairs = [(a, b) for a in divs for b in divs]           # re-attach WITHOUT detach, incl. the same division, ppn = 1 and ppn = P
+        if ctx.quick and P > 6:
+            pairs = rng.sample(pairs, 6)
+        for (a, b) in pairs:
+            add(P, [A(0, a), A(0, b)])
+        nondiv = [d for d in range(2, P) if P % d != 0]
+        for _ in range(2 if ctx.quick else 6):
+            a, b, c, m = rng.choice(divs), rng.choice(divs), rng.choice(divs), rng.choice(divs)
+            add(P, [A(0, 0), A(0, b)], ppn_sim=m)               # auto-detected division (m ranks per node) replaced by an explicit one
+            add(P, [A(0, a), A(0, 0)], ppn_sim=m)               # ... and the other way round
+            add(P, [A(0, a), D(0), A(0, b)])                    # attach after detach
+            add(P, [A(0, a), A(0, b), A(0, c)])
+            add(P, [A(0, a), DUP, A(0, b)])                     # the original changes its division, the duplicate keeps the inherited one
+            add(P, [A(0, a), DUP, A(1, b)])                     # attach on the dup while the original is attached with another division
+            add(P, [A(0, a), DUP, D(0), A(1, b), A(0, c)])
+            add(P, [DUP, A(1, b), A(0, a), A(1, 0), FREE, A(0, c)], ppn_sim=m)
+            add(P, [A(0, a), DUP, A(1, b), FREE, A(0, c), DUP, D(1)])
+            if nondiv:
+                # MPI_Comm_split_type reports nodes of different sizes: the attach is refused and (libsc as it is) an older attachment stays
+                add(P, [A(0, a), A(0, 0), A(0, b)], ppn_sim=rng.choice(nondiv))
+    return out
+
+
+def hist_expected(P, ppn_sim, ops):
+    """independent restatement: after every operation the division in force on communicator 0 / 1 as the per-rank grid list, None = nothing
+    attached, '-' = the communicator does not exist"""
+    cur = {0: None, 1: "-"}
+    steps = []
+    for (k, c, pa) in ops:
+        if k == 0:
+            g = expected_grid((P, 0, 0, pa, ppn_sim, 0))
+            if g[0] is not None:
+                cur[c] = g
+        elif k == 1:
+            cur[c] = None
+        elif k == 2:
+            cur[1] = cur[0]
+        else:
+            cur[1] = "-"
+        steps.append(dict(cur))
+    return steps
+
+
+def hist_live(trace, P):
+    """per rank: trace note -> number of node communicators (created by Comm_split / Comm_split_type, or by Comm_dup of one of them) alive there"""
+    by = [[] for _ in range(P)]
+    for e in trace:
+        if 0 <= e.get("r", -1) < P:
+            by[e["r"]].append(e)
+    out = []
+    for q in range(P):
+        made, d, world = set(), {}, None
+        for e in sorted(by[q], key=lambda e: e.get("s", 0)):
+            f = e.get("f")
+            if f == "note":
+                d[e.get("text")] = len(made)
+            elif f in ("MPI_Comm_split", "MPI_Comm_split_type") and e.get("newc", -1) not in (-1, None):
+                made.add(e.get("newc"))
+            elif f == "MPI_Comm_dup" and e.get("c") in made:
+                made.add(e.get("newc"))
+            elif f == "MPI_Comm_free":
+                made.discard(e.get("c"))
+        out.append(d)
+    return out
+
+
+def judge_history(ctx, hc, r, bad):
+    P, seed, adv, ppn_sim, nonc, d, count, dseed, ops = hc
+    ts = TSIZE[d]
+    key = "history-P%d%s-%s" % (P, ("-sim%d" % ppn_sim) if any(o[0] == 0 and o[2] == 0 for o in ops) else "", "_".join(op_text(o) for o in ops))
+    rep = dict(history=[list(o) for o in ops], case=[P, seed, adv, ppn_sim, nonc, d, count, dseed], rc=r.rc, report=r.report[:2000],
+               legend="operation (kind, communicator, ppn): kind 0 sc_mpi_comm_attach_node_comms, 1 detach, 2 MPI_Comm_dup of communicator 0, 3 MPI_Comm_free of the duplicate")
+
+    def viol(kind, text):
+        bad[0] += 1
+        ctx.violation(kind + ":" + key, text, rep)
+    htxt = " ; ".join(("attach(%s, %d)" % ("dup" if c else "comm", pa)) if k == 0 else (("detach(%s)" % ("dup" if c else "comm")) if k == 1 else ("dup = MPI_Comm_dup(comm)" if k == 2 else "MPI_Comm_free(dup)"))
+                      for (k, c, pa) in ops)
+    if r.rc != 0:
+        errs = [l for l in r.report.split("\n") if l.startswith("[ERROR]")]
+        viol("schedule", "history %s: run did not end normally (simmpi code %s): %s%s" % (htxt, r.rc, (errs[0][:200] + " | ") if errs else "", r.report[:200]))
+        return None
+    outs = [parse_out(l) for l in r.outs[1:]]
+    if len(outs) != P:
+        viol("output", "history %s: harness printed %d of %d rank outputs" % (htxt, len(outs), P))
+        return None
+    leaks = [l for l in r.report.split("\n") if l.startswith("[LEAK]") and "keyval" not in l]
+    if leaks:
+        viol("leak", "history %s: objects left after the final detach and free (communicators of a replaced division must be released): %s" % (htxt, "; ".join(leaks)[:400]))
+    warns = [l for l in r.report.split("\n") if l.startswith("[WARNING]")]
+    if warns:
+        viol("nocheck" if "NOCHECK" in warns[0] else "warning", "history %s: %s" % (htxt, warns[0][:300]))
+    if r.mem not in (0, None):
+        viol("memory", "history %s: sc_memory_status changed by %s" % (htxt, r.mem))
+    contrib = [[item(d, dseed, q, k) for k in range(count)] for q in range(P)]
+    mask = (1 << (8 * ts)) - 1
+    exp_ag = b"".join((v & mask).to_bytes(ts, "little") for q in range(P) for v in contrib[q])
+    pre, acc = [0] * count, [0] * count
+    for q in range(P):
+        acc = [wrap(d, a + b) for a, b in zip(acc, contrib[q])]
+        pre += acc
+    exp_pre = b"".join((v & mask).to_bytes(ts, "little") for v in pre)
+    exp = hist_expected(P, ppn_sim, ops)
+    for k, st in enumerate(exp):
+        upto = " ; ".join(htxt.split(" ; ")[:k + 1])
+        for ci in (0, 1):
+            name = "the duplicate" if ci else "the communicator"
+            for q in range(P):
+                tok = outs[q].get("s%dc%d" % (k, ci))
+                if st[ci] == "-":
+                    if tok is not None:
+                        viol("output", "history %s: report for a communicator that does not exist" % upto)
+                    continue
+                if tok is None:
+                    viol("output", "history %s: rank %d printed no report for %s after operation %d" % (upto, q, name, k))
+                    return None
+                f = tok.split(";")
+                g = tuple(int(x) for x in f[0].split("/"))
+                want = st[ci][q] if st[ci] is not None else (-1, -1, -1, -1)
+                rep["rank"], rep["step"], rep["communicator"] = q, k, ci
+                if g != want:
+                    rep["got"], rep["expected"] = list(g), list(want)
+                    viol("history-grid", "after %s: rank %d on %s: position (intrarank/intrasize/interrank/intersize) %s, the division in force (the LAST attach) gives %s" % (upto, q, name, g, want))
+                for fl in range(4):
+                    should = 1 if (fl < 2 or st[ci] is None or st[ci][q][0] == 0) else 0
+                    if int(f[1][fl]) != should:
+                        viol("history-writer", "after %s: rank %d on %s (position %s in the division in force): sc_shmem_write_start for flavour %s returned %s, expected %d" % (
+                            upto, q, name, want, FNAME[fl], f[1][fl], should))
+                    if hb(f[2 + fl]) != exp_ag:
+                        viol("history-allgather", "after %s: rank %d on %s, flavour %s: sc_shmem_allgather does not leave the contributions in rank order" % (upto, q, name, FNAME[fl]))
+                for i, fl in enumerate((2, 3)):
+                    if hb(f[6 + i]) != exp_pre:
+                        viol("history-prefix", "after %s: rank %d on %s, flavour %s: sc_shmem_prefix is not (0, s0, s0+s1, ...)" % (upto, q, name, FNAME[fl]))
+    return dict(outs=outs, exp=exp)
+
+
+def run_histories(ctx, exe, env, bad, dist):
+    hists = gen_histories(ctx)
+    if ctx.replay:
+        rp = json.load(open(ctx.replay)).get("replay", {})
+        if "history" in rp:
+            hists = [tuple(rp["case"]) + (tuple(tuple(o) for o in rp["history"]),)] + hists[:3]
+    text = "".join("H %d %d %d %d %d %d %d %d %d %s\n" % (h[:8] + (len(h[8]), " ".join("%d %d %d" % o for o in h[8]))) for h in hists)
+    rc, lines, err = ctx.run_lines([exe], text, timeout=1500, env=env)
+    runs = [r for r in mpitrace.parse_runs(lines) if r.mem is not None]
+    del lines
+    if rc != 0 or len(runs) != len(hists):
+        h = hists[len(runs)] if len(runs) < len(hists) else None
+        m = [l for l in err.split("\n") if "ERROR" in l or "runtime error" in l or "SUMMARY" in l]
+        ctx.violation("crash", "c14 harness ended with status %s while running the history %s: %s" % (rc, h, " | ".join(m)[:600] or err[-400:]),
+                      dict(history=[list(o) for o in h[8]] if h else None, case=list(h[:8]) if h else None, stderr=err[-3000:]))
+    good = []
+    for h, r in zip(hists, runs):
+        ctx.count_case(("H",) + h, nontrivial=h[0] > 1)
+        dist["histories"] = dist.get("histories", 0) + 1
+        shape = " ".join(("attach" if o[0] == 0 else ["", "detach", "dup", "free"][o[0]]) + ("(dup)" if o[0] <= 1 and o[1] else "") for o in h[8])
+        hs = dist.setdefault("history_shapes", {})
+        hs[shape] = hs.get(shape, 0) + 1
+        res = judge_history(ctx, h, r, bad)
+        if res:
+            good.append((h, r, res))
+    # co-simulation: the life cycle hstep of the model (divisions, grids, grants, node communicators alive) against the run
+    try:
+        mexe = ctx.model("c14")
+        mtext = "".join("H %d %d %d %d %s\n" % (h[0], h[3], h[4], len(h[8]), " ".join("%d %d %d" % o for o in h[8])) for h, _, _ in good)
+        rc2, mout, err2 = ctx.run_lines([mexe], mtext, timeout=600)
+        mout = [l for l in mout if l != ""]
+        if rc2 != 0 or len(mout) != len(good):
+            ctx.tie_broken("c14 model run (histories)", "exit %s, %d of %d lines: %s" % (rc2, len(mout), len(good), err2[-500:]))
+        nmis = nsteps = 0
+        for (h, r, res), l in zip(good, mout):
+            P, ops = h[0], h[8]
+            live = hist_live(r.trace, P)
+            steps = [x.strip() for x in l.split(" | ")]
+            dis = []
+            if len(steps) != len(ops):
+                dis.append("the model's life cycle rejects the history (%s)" % l[:80])
+            for k, stp in enumerate(steps[:len(ops)]):
+                m = dict(t.partition("=")[::2] for t in stp.split())
+                nsteps += 1
+                for q in range(P):
+                    if str(live[q].get("h%d" % k)) != m.get("live"):
+                        dis.append("after operation %d rank %d has %s node communicators alive, model %s" % (k, q, live[q].get("h%d" % k), m.get("live")))
+                        break
+                for ci in (0, 1):
+                    mc = m.get("c%d" % ci, "-")
+                    if (mc == "-") != (res["exp"][k][ci] == "-"):
+                        dis.append("after operation %d: existence of communicator %d" % (k, ci))
+                        continue
+                    if mc == "-":
+                        continue
+                    per = mc.split(",")
+                    for q in range(P):
+                        f = res["outs"][q].get("s%dc%d" % (k, ci), "?;?").split(";")
+                        got = ("none" if f[0] == "-1/-1/-1/-1" else f[0]) + ":" + f[1]
+                        if q >= len(per) or per[q] != got:
+                            dis.append("after operation %d communicator %d rank %d: grid:grants model %s impl %s" % (k, ci, q, per[q] if q < len(per) else "?", got))
+                            break
+                    exp_div = res["exp"][k][ci]
+                    if (m.get("spec%d" % ci) == "none") != (exp_div is None):
+                        dis.append("after operation %d communicator %d: in_force of the model %s, oracle %s" % (k, ci, m.get("spec%d" % ci), "none" if exp_div is None else "attached"))
+            for q in range(P):
+                if live[q].get("hfin") != 0:
+                    dis.append("rank %d: %s node communicators alive after the final detach" % (q, live[q].get("hfin")))
+                    break
+            if dis:
+                nmis += 1
+                if nmis <= 3:
+                    ctx.tie_broken("model correspondence, history %s (P=%d)" % (" ".join(op_text(o) for o in ops), P), "; ".join(dis)[:600])
+        ctx.notes["history_steps_compared"] = nsteps
+        ctx.notes["history_mismatches"] = nmis
+    except vlib.BuildError as e:
+        ctx.tie_broken("c14 model build", str(e)[-1500:])
+    return len(hists)
+
+
 def parse_out(l):
     w = l.split()
     d = {"rank": w[0]}
@@ -412,7 +647,9 @@ def run(ctx):
     cases = gen_cases(ctx, ntypes)
     if ctx.replay:
         rp = json.load(open(ctx.replay)).get("replay", {})
-        if "case" in rp:
+        if "history" in rp:
+            cases = cases[:5]          # the history itself is replayed by run_histories
+        elif "case" in rp:
             rc0 = tuple(rp["case"])
             rc0 = rc0 + (0,) * (12 - len(rc0))
             cases = [rc0 + (-1,) * (14 - len(rc0))] + cases[:5]
@@ -450,6 +687,7 @@ def run(ctx):
             model_lines.append("%d %d %d %d %d %d %d %s %d %d %d %d %d %s" % (P, pa, ppn, nonc, flavour, d, count, hxl(contrib), dup,
                                                                            L // TSIZE[st], TSIZE[st], L // TSIZE[rt], TSIZE[rt], hxl(list(cbytes))))
             model_cases.append((c, r, res))
+    run_histories(ctx, exe, env, bad, dist)
     try:
         mexe = ctx.model("c14")
         rc2, mout, err2 = ctx.run_lines([mexe], "\n".join(model_lines) + "\n", timeout=900)
@@ -506,7 +744,9 @@ def run(ctx):
     ctx.cov["rule"] = ("runs of the real sc_shmem_* / node communicator code on the simulated MPI: P in %s, every node size dividing P, explicit "
                        "processes_per_node and MPI_Comm_split_type (contiguous nodes), all 4 flavours, 8 integer datatypes, counts 0..5, all 8 "
                        "scheduler adversaries; sc_shmem_allgather with send / receive signatures that describe the same bytes differently (INT <-> 2INT, "
-                       "LONG <-> INT, BYTE <-> typed, narrow <-> wide) at random in the main grid and on dedicated multi-node grids for all flavours; plus: no communicators attached, unequal node sizes (must not attach), and the round-robin node "
+                       "LONG <-> INT, BYTE <-> typed, narrow <-> wide) at random in the main grid and on dedicated multi-node grids for all flavours; HISTORIES of "
+                       "attach / detach / dup / free on one communicator and its duplicate (re-attach without detach for all ordered pairs of divisors of P, "
+                       "split_type before / after explicit, attach after detach, attach on the duplicate, refused split_type), judged after every operation; plus: no communicators attached, unequal node sizes (must not attach), and the round-robin node "
                        "partition as probe of the recorded finding F-C14a; write rounds back to back (no barrier of the callers between the last "
                        "read and the next write_start; every MPI_MODE_NOCHECK lock must find no conflicting lock); after detach: get_node_comms must return NULL/NULL, no communicator/window may be left; "
                        "distinct = distinct parameter tuples; non-trivial = P > 1" % (
